@@ -9,13 +9,19 @@
    a callee returns with the outermost scope it was given: the caller's.
 
    Part 1 (Section Control3) is again for an arbitrary value relation VR: the nodes of
-   TSemSemStmt.v / TSemSemCall.v replayed for [relQ]. *)
+   TSemSemStmt.v / TSemSemCall.v replayed for [relQ].
+
+   PRODUCTS WITH A LITERAL OPERAND ([scf2_op]): the two nodes of Compile/TSemSemMul.v are replayed
+   for [relQ] at the end of Section ScalarG3 ([mul_lit_node3], [mul_plain_node3], [mul_lit_node_b3]);
+   the checker accepts `x * c` / `c * x` when the repeated-addition rewrite does not fire
+   (an ordinary checked product) or when [mul_node_ok] holds. *)
 From Coq Require Import Lia ZArith.
 From GV Require Import Base.Util Base.Bits Base.BitsProofs Lang.Ast Lang.Wt Lang.ValTy Lang.WtShape
   Gadgets.Gadgets Gadgets.GadgetSpec Gadgets.Arith Gadgets.Extend Gadgets.ExtendProofs
   Panic.PanicRec Panic.PanicSem Compile.Lower Compile.TSem Compile.TSemFacts Compile.TSemArith1
   Compile.TSemArith2 Compile.TSemControl Compile.TSemArray Compile.TSemSemExpr Compile.ValEnc
-  Compile.TSemSticky Compile.TSemSemStmt Compile.TSemSemCall Compile.TSemSemAgg Compile.TSemSemFull.
+  Compile.TSemSticky Compile.TSemSemStmt Compile.TSemSemMul Compile.TSemSemCall Compile.TSemSemAgg
+  Compile.TSemSemFull.
 From GV Require Lang.Sem.
 Local Open Scope N_scope.
 
@@ -705,7 +711,134 @@ Section ScalarG3.
       split; [reflexivity|]. split; [now apply VR_sc_intro|exact Hrel1].
     - subst o1. rewrite HR in Hrun. now injection Hrun as _ _ <-.
   Qed.
+
+  (* ---------------------------------------------------------------- products with a literal operand
+     (Compile/TSemSemMul.v, replayed for [relQ]) *)
+
+  (* `x * c` / `c * x` where the rewrite fires *)
+  Theorem mul_lit_node3 f g x y m sg b left n neg :
+    ok_width b = true -> e_ty x = TInt sg b -> e_ty y = TInt sg b ->
+    mul_lit_info x y m (TInt sg b) = Some (left, n, neg) ->
+    negb neg || sg = true -> mul_lit_ok b n neg = true ->
+    AgE' f g (if left then y else x) ->
+    AgE' (S f) g (Ex (EOp OMul x y) m (TInt sg b)).
+  Proof.
+    intros Hb Etx Ety Hinfo Hsg Hok IH ph en E fT w E' o' Hrel Hrun.
+    destruct (mul_lit_info_spec x y m sg b left n neg Etx Ety Hinfo) as (Hn & (lb & Hlit) & Hrw). cbv zeta in Hlit, Hrw.
+    destruct fT as [|fT]; [discriminate Hrun|]. rewrite lower_expr_S in Hrun. cbn [lower_expr_body] in Hrun.
+    rewrite Hrw in Hrun. minva Hrun as [wv E1] o1 Hop. minva Hrun as E2 o2 Hlet.
+    apply lift_res_inv in Hlet. destruct Hlet as [Hlet ->]. cbn [env_push env_let scope_insert] in Hlet.
+    injection Hlet as <-. minva Hrun as [r E3] o3 Hsum. minva Hrun as E4 o4 Hpop.
+    apply lift_res_inv in Hpop. destruct Hpop as [Hpop ->]. apply ret_inv in Hrun. destruct Hrun as [Heq ->].
+    injection Heq as -> ->.
+    rewrite (sem_eval_op P f en OMul x y m (TInt sg b) eq_refl).
+    assert (Hety : e_ty (if left then y else x) = TInt sg b) by (destruct left; assumption).
+    (* the run of the operand and of the sum against the operand's evaluation from [en0] *)
+    assert (Hcore : forall en0, relQ VR gsc sglob glob ph en0 E g ->
+      match Sem.eval f P en0 (if left then y else x) with
+      | Sem.Done (Sem.VInt a, en1) =>
+          Sem.in_range sg b a = true /\ relQ VR gsc sglob glob ph en1 E1 g /\ E4 = E1 /\
+          if Sem.in_range sg b (a * lit_Z n neg)
+          then o3 = None /\ r = enc (N.to_nat b) (a * lit_Z n neg)
+          else o3 = Some (pcode Sem.ROverflow m)
+      | Sem.Done (_, _) => False
+      | Sem.Panicked r0 m0 => o3 = Some (pcode r0 m0)
+      | _ => True
+      end).
+    { intros en0 Hrel0. pose proof (IH ph en0 E fT _ _ _ Hrel0 Hop) as IH1. revert IH1.
+      destruct (Sem.eval f P en0 (if left then y else x)) as [[vx en1]|r1 m1|c1|]; intro IH1; try exact I.
+      - destruct IH1 as (-> & HV & Hrel1). rewrite Hety in HV.
+        destruct (VR_sc_elim (TInt sg b) _ _ Hb HV) as [Hokv ->].
+        destruct vx as [|a| | |]; try contradiction. cbn [val_ok enc_val] in *.
+        assert (HE2 : env_get ([(MUL_TMP, enc (N.to_nat b) a)] :: E1) MUL_TMP = Some (enc (N.to_nat b) a))
+          by (cbn [env_get assocN]; now rewrite N.eqb_refl).
+        destruct (mul_core P sg b m _ n neg a _ fT _ _ _ Hb Hokv Hn Hsg Hok HE2 Hsum) as [-> Hres].
+        cbn [env_pop] in Hpop. injection Hpop as <-. auto.
+      - subst o1. exact (sticky_e P fT _ _ _ _ _ _ Hsum). }
+    pose proof (ok_width_pos b Hb) as Hb2.
+    (* Sem.v: both operands, then the checked product *)
+    destruct left.
+    - (* the literal on the left *)
+      destruct f as [|f']; [exact I|]. rewrite (lit_info_eval P x n lb neg f' en Hlit). cbn [Sem.obind].
+      specialize (Hcore en Hrel). revert Hcore.
+      destruct (Sem.eval (S f') P en y) as [[vy en1]|r1 m1|c1|]; cbn [Sem.obind]; try (intro; exact I); [|intro H; exact H].
+      destruct vy as [|a| | |]; try contradiction. intros (Ha & Hrel1 & -> & Hres).
+      rewrite Etx. cbn [Sem.eval_binop Sem.int_ty]. unfold Sem.checked. rewrite (Z.mul_comm (lit_Z n neg) a).
+      destruct (Sem.in_range sg b (a * lit_Z n neg)) eqn:Hr; cbn [Sem.obind e_ty].
+      + destruct Hres as [-> ->]. split; [reflexivity|]. split.
+        * now apply (VR_sc_intro (TInt sg b) (Sem.VInt (a * lit_Z n neg))).
+        * eapply rel3_scopes; [|exact Hrel1]. reflexivity.
+      + exact Hres.
+    - (* the literal on the right *)
+      specialize (Hcore en Hrel). revert Hcore.
+      destruct (Sem.eval f P en x) as [[vx en1]|r1 m1|c1|]; cbn [Sem.obind]; try (intro; exact I); [|intro H; exact H].
+      destruct vx as [|a| | |]; try contradiction. intros (Ha & Hrel1 & -> & Hres).
+      destruct f as [|f']; [exact I|]. rewrite (lit_info_eval P y n lb neg f' en1 Hlit). cbn [Sem.obind].
+      rewrite Etx. cbn [Sem.eval_binop Sem.int_ty]. unfold Sem.checked.
+      destruct (Sem.in_range sg b (a * lit_Z n neg)) eqn:Hr; cbn [Sem.obind e_ty].
+      + destruct Hres as [-> ->]. split; [reflexivity|]. split.
+        * now apply (VR_sc_intro (TInt sg b) (Sem.VInt (a * lit_Z n neg))).
+        * eapply rel3_scopes; [|exact Hrel1]. reflexivity.
+      + exact Hres.
+  Qed.
+
+  Theorem mul_plain_node3 f g x y m t tx :
+    mul_rewrite x y m t = None ->
+    e_ty x = tx -> e_ty y = tx -> scalar_ty tx = true -> scalar_ty t = true ->
+    (forall vx vy len, val_ok tx vx -> val_ok tx vy -> binop_agrees OMul m t tx vx vy len) ->
+    AgE' f g x -> AgE' f g y -> AgE' (S f) g (Ex (EOp OMul x y) m t).
+  Proof.
+    intros Hm Etx Ety Hsx Hst Hag IHx IHy ph en E fT w E' o' Hrel Hrun.
+    destruct fT as [|fT]; [discriminate Hrun|]. rewrite lower_expr_S in Hrun.
+    apply (mul_plain_run_inv P) in Hrun; [|exact Hm].
+    destruct Hrun as (xw & E1 & o1 & yw & o2 & Hx & Hy & Hb).
+    rewrite (sem_eval_op P f en OMul x y m t eq_refl).
+    pose proof (IHx ph en E fT _ _ _ Hrel Hx) as IH1. revert IH1.
+    destruct (Sem.eval f P en x) as [[vx en1]|r1 m1|c1|]; intro IH1; cbn [Sem.obind]; try exact I.
+    - destruct IH1 as (-> & HVx & Hrel1). rewrite Etx in HVx.
+      destruct (VR_sc_elim _ _ _ Hsx HVx) as [Hokx ->].
+      pose proof (IHy ph en1 E1 fT _ _ _ Hrel1 Hy) as IH2. revert IH2.
+      destruct (Sem.eval f P en1 y) as [[vy en2]|r2 m2|c2|]; intro IH2; cbn [Sem.obind]; try exact I.
+      + destruct IH2 as (-> & HVy & Hrel2). rewrite Ety in HVy.
+        destruct (VR_sc_elim _ _ _ Hsx HVy) as [Hoky ->].
+        pose proof (Hag vx vy (Sem.lenient en2) Hokx Hoky) as HA. unfold binop_agrees in HA.
+        rewrite Etx, Ety in Hb. rewrite Etx. revert HA.
+        destruct (Sem.eval_binop OMul m t tx vx vy (Sem.lenient en2)) as [[v len]|r3 m3|c3|];
+          intro HA; cbn [Sem.obind]; try contradiction.
+        * destruct HA as [Hokv HB]. rewrite HB in Hb. injection Hb as <- <-. cbn [e_ty].
+          split; [reflexivity|]. split; [now apply VR_sc_intro|]. eapply rel3_scopes; [|exact Hrel2]. reflexivity.
+        * destruct HA as [-> [w' HB]]. rewrite HB in Hb. now injection Hb as _ <-.
+      + subst o2.
+        match type of Hb with ?mm (Some ?c) = _ => assert (stkx c mm) as Hstk by apply stkx_lower_binop end.
+        exact (Hstk _ _ Hb).
+    - subst o1. pose proof (sticky_e P _ _ _ _ _ _ _ Hy) as ->.
+      match type of Hb with ?mm (Some ?c) = _ => assert (stkx c mm) as Hstk by apply stkx_lower_binop end.
+      exact (Hstk _ _ Hb).
+  Qed.
 End ScalarG3.
+
+Section MulNodeB3.
+  Variable P : program.
+  Variable VR : ty -> Sem.value -> list bool -> Prop.
+  Hypothesis VR_sc_elim : forall t v w, scalar_ty t = true -> VR t v w -> val_ok t v /\ w = enc_val t v.
+  Hypothesis VR_sc_intro : forall t v, scalar_ty t = true -> val_ok t v -> VR t v (enc_val t v).
+  Variable gsc : list (N * (ty * bool)).
+  Variable sglob : list (N * Sem.value).
+  Variable glob : @scope bool.
+
+  Corollary mul_lit_node_b3 f g x y m t :
+    e_ty x = t -> e_ty y = t -> mul_node_ok x y m t = true ->
+    AgE3 P VR gsc sglob glob f g (mul_operand x y m t) -> AgE3 P VR gsc sglob glob (S f) g (Ex (EOp OMul x y) m t).
+  Proof.
+    intros Etx Ety Hok IH. unfold mul_node_ok in Hok. destruct t as [|sg b| | | |]; try discriminate Hok.
+    apply andb_prop in Hok as [Hb Hok]. unfold mul_operand in IH.
+    destruct (mul_lit_info x y m (TInt sg b)) as [[[left n] neg]|] eqn:Hi; [|discriminate Hok].
+    apply andb_prop in Hok as [Hsg Hlit].
+    eapply (mul_lit_node3 P VR VR_sc_elim VR_sc_intro gsc sglob glob f g x y m sg b left n neg); try eassumption.
+  Qed.
+End MulNodeB3.
+Print Assumptions mul_lit_node_b3.
+Print Assumptions mul_plain_node3.
 
 (* ------------------------------------------------------------------ the aggregate / pattern / match
    nodes of Compile/TSemSemAgg.v, replayed for [relQ] (the lemmas about values and runs are reused) *)
@@ -2002,12 +2135,24 @@ End Agg3.
 
 (* ------------------------------------------------------------------ the strict checker with calls *)
 
+(* binary operators: the scalar operators of [sc_op] (a product there has no literal operand), or a
+   product with a literal operand: an ordinary checked product where the compiler's repeated-addition
+   rewrite does not fire, else the side conditions of Compile/TSemSemMul.v ([mul_node_ok]) *)
+Definition scf2_op (o : binop) (x y : expr) (m : meta) (t : ty) : bool :=
+  sc_op o x y t ||
+  match o, t with
+  | OMul, TInt _ b =>
+      sty_eqb (e_ty x) t && sty_eqb (e_ty y) t &&
+      match mul_rewrite x y m t with None => ok_width b | Some _ => mul_node_ok x y m t end
+  | _, _ => false
+  end.
+
 Fixpoint scf2_expr (fuel : nat) (P : program) (g : tenv) (e : expr) {struct fuel} : bool :=
   match fuel with
   | O => false
   | S f =>
     match e with
-    | Ex ei _ t =>
+    | Ex ei m t =>
       match ei with
       | ETrue | EFalse => ty_beq t TBool
       | ENumU n _ => match t with TInt _ _ => lit_fits t (Z.of_N n) | _ => false end
@@ -2088,7 +2233,7 @@ Fixpoint scf2_expr (fuel : nat) (P : program) (g : tenv) (e : expr) {struct fuel
           | _ => false
           end
       | ENot e1 => scalar_ty t && ty_beq (e_ty e1) t && scf2_expr f P g e1
-      | EOp o x y => scf2_expr f P g x && scf2_expr f P g y && sc_op o x y t
+      | EOp o x y => scf2_expr f P g x && scf2_expr f P g y && scf2_op o x y m t
       | EBlock b => match scf2_block f P ([] :: g) b with Some tb => ty_beq tb t | None => false end
       | ECall fn args =>
           match find_fn P fn with
@@ -2282,10 +2427,29 @@ Section MainF2.
     | H : ty_beq _ _ = true |- _ => apply ty_beq_eq in H
     end.
 
-  Lemma op_step_f2 f g o x y m t :
-    sc_op o x y t = true ->     AgE' f g x -> AgE' f g y -> AgE' (S f) g (Ex (EOp o x y) m t).
+  Lemma mul_step_f2 f g x y m t :
+    match t with
+    | TInt _ b =>
+        sty_eqb (e_ty x) t && sty_eqb (e_ty y) t &&
+        match mul_rewrite x y m t with None => ok_width b | Some _ => mul_node_ok x y m t end
+    | _ => false
+    end = true ->
+    AgE' f g x -> AgE' f g y -> AgE' (S f) g (Ex (EOp OMul x y) m t).
   Proof.
-    intros Hop IHx IHy.
+    intros Hop IHx IHy. destruct t as [|sg b| | | |]; try discriminate Hop. bsplit. eqs.
+    destruct (mul_rewrite x y m (TInt sg b)) as [r|] eqn:Hm.
+    - apply (mul_lit_node_b3 P VRa VRa_elim2 VRa_intro2 gsc sglob glob); try assumption.
+      unfold mul_operand. destruct (mul_lit_info x y m (TInt sg b)) as [[[[] ?] ?]|]; assumption.
+    - apply (mul_plain_node3 P VRa VRa_elim2 VRa_intro2 gsc sglob glob f g x y m (TInt sg b) (TInt sg b));
+        try assumption.
+      apply int_agrees; [assumption|left; split; reflexivity].
+  Qed.
+
+  Lemma op_step_f2 f g o x y m t :
+    scf2_op o x y m t = true -> AgE' f g x -> AgE' f g y -> AgE' (S f) g (Ex (EOp o x y) m t).
+  Proof.
+    intros Hop IHx IHy. unfold scf2_op in Hop. apply orb_prop in Hop. destruct Hop as [Hop|Hop];
+      [|destruct o; try discriminate Hop; now apply mul_step_f2].
     destruct o; cbn [sc_op] in Hop.
     (* arithmetic and bitwise *)
     1-8: destruct t as [|sg b| | | |]; try discriminate Hop; bsplit; try discriminate; eqs;
@@ -2724,3 +2888,50 @@ Module SanityFullCall.
     rewrite Ev in H. eauto.
   Qed.
 End SanityFullCall.
+
+(* products by a literal: accepted, and the two semantics agree (value and overflow); the
+   literal -2i8 of the finding const-mul-rewrite-intermediate-overflow is rejected *)
+Module SanityMul.
+  Definition mm (k : N) : meta := mkMeta k 1 k 9.
+  Definition u8 := TInt false 8.
+  Definition i8 := TInt true 8.
+  (* pub fn main(x: u8) -> u8 { 3u8 * x } *)
+  Definition main_fn : fndef :=
+    mkFn 11 [(1, u8)] u8
+      [ St (SExpr (Ex (EOp OMul (Ex (ENumU 3 8) (mm 1) u8) (Ex (EId 1) (mm 2) u8)) (mm 3) u8)) (mm 4) ].
+  Definition P0 : program := mkProgram [] [] [main_fn] [] 11.
+
+  Example accepted : in_full_fragment2 6 P0 = true.
+  Proof. vm_compute. reflexivity. Qed.
+
+  Ltac run A :=
+    destruct (tsem_program 8 P0 A) as [[o outs]| |] eqn:Hrun;
+      [|vm_compute in Hrun; discriminate Hrun|vm_compute in Hrun; discriminate Hrun];
+    assert (Hcan : canonical_main_args P0 A = true) by (vm_compute; reflexivity);
+    pose proof (in_full_fragment2_sound P0 8 6 8 _ o outs accepted Hcan Hrun) as H.
+
+  Example value : exists o outs l, tsem_program 8 P0 [enc 8 50] = Ok (o, outs) /\
+    Sem.run_main 8 P0 [enc 8 50] = Sem.RunOk (enc 8 150) l /\ o = None /\ outs = enc 8 150.
+  Proof.
+    run [enc 8 50].
+    assert (exists l, Sem.run_main 8 P0 [enc 8 50] = Sem.RunOk (enc 8 150) l) as [l Ev]
+      by (eexists; vm_compute; reflexivity).
+    rewrite Ev in H. destruct H as [-> ->]. exists None, (enc 8 150), l. repeat split; assumption || reflexivity.
+  Qed.
+
+  Example overflow : exists o outs, tsem_program 8 P0 [enc 8 100] = Ok (o, outs) /\
+    Sem.run_main 8 P0 [enc 8 100] = Sem.RunPanic Sem.ROverflow (mm 3) /\
+    o = Some (preason_num Overflow, ploc32 (ploc_of (mm 3))).
+  Proof.
+    run [enc 8 100].
+    assert (Sem.run_main 8 P0 [enc 8 100] = Sem.RunPanic Sem.ROverflow (mm 3)) as Ev by (vm_compute; reflexivity).
+    rewrite Ev in H. eauto.
+  Qed.
+
+  (* pub fn main(x: i8) -> i8 { x * -2i8 } : not accepted *)
+  Definition neg_fn : fndef :=
+    mkFn 11 [(1, i8)] i8
+      [ St (SExpr (Ex (EOp OMul (Ex (EId 1) (mm 2) i8) (Ex (ENumS (-2) 8) (mm 1) i8)) (mm 3) i8)) (mm 4) ].
+  Example rejected : in_full_fragment2 6 (mkProgram [] [] [neg_fn] [] 11) = false.
+  Proof. vm_compute. reflexivity. Qed.
+End SanityMul.
